@@ -61,7 +61,7 @@ class ExprGen:
 
     def cond(self, names: list[str]) -> str:
         rng = self.rng
-        if rng.random() < 0.2:
+        if rng.random() < 0.3:
             self.feats.add("not")
             return f"not ({self._cond(names)})" if rng.random() < 0.5 else f"not {self._cond(names, simple=True)}"
         return self._cond(names)
@@ -187,7 +187,8 @@ def gen_model(rng, tag: str) -> tuple[dict, str, list[str]]:  # noqa: ANN001
     params = [mk(f"k{i}") for i in range(rng.randint(2, 4))]
     comps: list[dict] = []
     for p in params:
-        comps.append({"kind": "parameter", "name": p, "value": round(rng.uniform(0.3, 2.0), 3)})
+        # (some thresholds sit on the lattice the compared states are drawn from: a variable equals its threshold now and then)
+        comps.append({"kind": "parameter", "name": p, "value": rng.choice([0.5, 1.0, 1.5, 2.0]) if rng.random() < 0.35 else round(rng.uniform(0.3, 2.0), 3)})
     for v in variables:
         comps.append({"kind": "variable", "name": v, "value": round(rng.uniform(0.3, 2.5), 3)})
     derived: list[str] = []
@@ -386,7 +387,7 @@ def _roundtrip(spec: dict, tag: str, label: str, ctx: dict, feats: list[str], se
             viols.append(core.viol(f"re-read model has different initial / parameter values [{label}]", None, names=bad, original={k: float(a1[k]) for k in bad},
                                    reread={k: float(a2.get(k, float("nan"))) for k in bad}, **ctx))
         vars1 = model.get_variable_names()
-        for i_state in range(6):
+        for i_state in range(8):
             st = {v: round(rng.uniform(0.3, 2.5), 3) for v in vars1}
             if i_state >= 3:
                 # lattice states: plain comparisons sit exactly on their switching points here
